@@ -17,7 +17,7 @@ Leaf(inloop) == IF Deep = 1
                      \cup (IF inloop THEN {<<[k |-> "break"]>>, <<[k |-> "continue"]>>} ELSE {})
 LeafE(inloop) == Leaf(inloop) \cup {<<>>}
 It(n, sup, er, xr) == [n |-> n, sup |-> sup, er |-> er, xr |-> xr, q |-> FALSE]
-Hd(ty, body) == [types |-> <<ty>>, bind |-> FALSE, n |-> 3, body |-> body]
+Hd(ty, body) == [types |-> <<ty>>, bind |-> FALSE, name |-> "ex", n |-> 3, body |-> body]
 ItemSets == {<<It(1, s, "", "")>> : s \in BOOLEAN} \cup
             {<<It(1, s1, "", ""), It(2, s2, "", "")>> : s1 \in BOOLEAN, s2 \in BOOLEAN} \cup
             {<<It(1, TRUE, "E1", "")>>, <<It(1, FALSE, "", ""), It(2, TRUE, "E1", "")>>,
@@ -164,12 +164,21 @@ Theorems ==
        /\ JumpsStayInFunction(o)
        /\ SelfAccept(prog, o)
 
-\* ---------------------------------------------------------------- witnesses (each must be VIOLATED: the case occurs)
-Out == TheRun.out
-W_NoFinallyAfterRaise == prog # <<>> => ~\E m \in 2..Len(Out) : IsG(Out[m], "B+") /\ Out[m].kind = "final" /\ IsG(Out[m - 1], "B-") /\ Out[m - 1].x = "raise"
-W_NoSuppress == prog # <<>> => ~\E sp \in Spans(Out, {"with"}) : Out[sp[2]].x = "norm" /\ \E m \in In(Out, sp, "B-", "body") : Out[m].x = "raise"
-W_NoBreakSkipsElse == prog # <<>> => ~\E sp \in Spans(Out, {"while", "for"}) : \E m \in In(Out, sp, "B-", "body") : Out[m].x = "break"
-W_NoReturnThroughCall == prog # <<>> => ~\E m \in 1..Len(Out) : IsG(Out[m], "B-") /\ Out[m].kind = "func" /\ Out[m].p # <<>> /\ Out[m].x = "return"
-W_NoFinallyOverride == prog # <<>> => ~\E sp \in Spans(Out, {"try"}) : \E m \in In(Out, sp, "B-", "final") : Out[m].x \in {"return", "break", "continue"} /\
-                          \E b \in In(Out, sp, "B-", "body") : Out[b].x = "raise"
+\* ---------------------------------------------------------------- witnesses: the antecedents of the theorems occur
+\* (evaluated once at startup over the nesting-1 family inside a loop; a false assumption stops TLC = machinery failure)
+WProgs == ProgsOf([cx |-> "B", mk |-> "none", il |-> TRUE])
+Occurs(P(_)) == \E pr \in WProgs : \E oc \in [1..2 -> BOOLEAN] : P(Run(pr, oc, TRUE).out)
+FinallyAfterRaise(o) == \E m \in 2..Len(o) : IsG(o[m], "B+") /\ o[m].kind = "final" /\ IsG(o[m - 1], "B-") /\ o[m - 1].x = "raise"
+Suppressed(o) == \E sp \in Spans(o, {"with"}) : o[sp[2]].x = "norm" /\ \E m \in In(o, sp, "B-", "body") : o[m].x = "raise"
+BreakSkipsElse(o) == \E sp \in Spans(o, {"while", "for"}) : \E m \in In(o, sp, "B-", "body") : o[m].x = "break"
+ReturnThroughCall(o) == \E m \in 1..Len(o) : IsG(o[m], "B-") /\ o[m].kind = "func" /\ o[m].p # <<>> /\ o[m].x = "return"
+FinallyOverrides(o) == \E sp \in Spans(o, {"try"}) : \E m \in In(o, sp, "B-", "final") : o[m].x \in {"return", "break", "continue"} /\
+                          \E b \in In(o, sp, "B-", "body") : o[b].x = "raise"
+EnterFails(o) == \E m \in 1..Len(o) : IsG(o[m], "EF")
+ASSUME Deep = 1 \/ Occurs(FinallyAfterRaise)
+ASSUME Deep = 1 \/ Occurs(Suppressed)
+ASSUME Deep = 1 \/ Occurs(BreakSkipsElse)
+ASSUME Deep = 1 \/ Occurs(ReturnThroughCall)
+ASSUME Deep = 1 \/ Occurs(FinallyOverrides)
+ASSUME Deep = 1 \/ Occurs(EnterFails)
 =============================================================================
